@@ -1,6 +1,6 @@
 /-
   PINS of property C02: the decision tokens of every item the property is anchored in
-  (properties.jsonl `anchors` + tools/anchor_extra.json), as they were in /repo at b30ed81 when the
+  (properties.jsonl `anchors` + tools/anchor_extra.json), as they were in /repo at 32de816 when the
   model was validated against the source.  Written by tools/pin_anchors.py; the right-hand sides are
   compared by the kernel with lean/Chrono/Extracted/Anchors.lean, which tools/extractors/anchors.py
   regenerates from /repo's working tree on every check.  A theorem that fails here means: anchored
@@ -44,7 +44,7 @@ theorem src_datetime_mod_rs_fn_timestamp_millis : C02_src_datetime_mod_rs_fn_tim
 
 /-- src/datetime/mod.rs:fn timestamp_nanos_opt -/
 theorem src_datetime_mod_rs_fn_timestamp_nanos_opt : C02_src_datetime_mod_rs_fn_timestamp_nanos_opt =
-    ["&", "self", "->", "Option", "<", "i64", ">", "v1", "self", "timestamp(", "v2", "self", "timestamp_subsec_nanos(", "as", "i64", "if", "v1", "<", "0", "v2", "-=", "1000000000", "v1", "+=", "1", "try_opt!(", "v1", "checked_mul(", "1000000000", "checked_add(", "v2"] := by decide +kernel
+    ["&", "self", "->", "Option", "<", "i64", ">", "v1", "self", "timestamp(", "as", "i128", "*", "1000000000", "+", "self", "timestamp_subsec_nanos(", "as", "i128", "if", "v1", "<", "i64", "MIN", "as", "i128", "||", "v1", ">", "i64", "MAX", "as", "i128", "return", "None", "Some(", "v1", "as", "i64"] := by decide +kernel
 
 /-- src/datetime/mod.rs:fn timestamp_subsec_micros -/
 theorem src_datetime_mod_rs_fn_timestamp_subsec_micros : C02_src_datetime_mod_rs_fn_timestamp_subsec_micros =
